@@ -22,6 +22,9 @@ def run(ctx):
             rolling.rule_policy_order(ctx, p, cfg, "R4")
         rolling.rule_reopen(ctx, p, cfg, "R5")
         rolling.rule_writer_handle(ctx, p, cfg, "R7")
+        if "config_parsing" in p.meta.get("features", []):
+            from rules import c14
+            c14.rule_file_append_default(ctx, p, cfg, "R8", "rolling")   # restarts on the same path keep the earlier records unless told otherwise
         if "fixed_window_roller" in p.meta.get("features", []):
             from rules import c07
             c07.rule_shift_order(ctx, p, cfg, "R6a")
